@@ -4,6 +4,7 @@
 -/
 import PcVerif.Lemmas.SrtRoundTrip
 import PcVerif.Lemmas.VttRoundTrip
+import PcVerif.Lemmas.MicroDvdRoundTrip
 namespace PcVerif.Props.C08
 
 inductive Res | ms | frame
@@ -104,5 +105,16 @@ example : VttW.CapIn.OK ((0 : Rat), (1 : Rat), ["Q&A --> <i>".toList, "&lt;x".to
       by unfold Srt.NoBreak; decide⟩
   · exact ⟨by decide, ⟨by intro c hc; simp at hc; subst hc; decide, by intro c hc; simp at hc; subst hc; decide⟩,
       by unfold Srt.NoBreak; decide⟩
+
+/-! ### a third real hop: MicroDVD -/
+
+open PcVerif in
+/-- **C08 (MicroDVD hop).** for every list of captions made of text lines (any number, any instants; a line is not
+    empty, has no white space at its ends, no `|` and no line-break character; a caption does not end in frame 0, which
+    would spell the frame-rate line `{0}{0}`), reading what `MicroDVDWriter` wrote returns exactly these captions: the
+    same lines, and the instants truncated to whole frames of 1/25 s -/
+theorem mdvd_hop (cs : List VttW.CapIn) (hne : cs ≠ []) (hok : ∀ c ∈ cs, MicroDvd.CapOK c) :
+    MicroDvd.read (MicroDvd.write [cs.map VttW.toRCap]) = .ok (cs.map MicroDvd.readBack) :=
+  MicroDvd.mdvd_write_read cs hne hok
 
 end PcVerif.Props.C08
